@@ -696,7 +696,8 @@ class FunctionalRightVectorMult(Functional, OperatorRightVectorMult):
             raise TypeError('`fun` {!r} is not a `Functional` instance'
                             ''.format(func))
 
-        OperatorRightVectorMult.__init__(self, operator=func, vector=vector)
+        OperatorRightVectorMult.__init__(self, operator=func,
+                                         vector=vector.copy())
         Functional.__init__(self, space=func.domain, linear=func.is_linear)
 
     @property
@@ -1415,13 +1416,13 @@ class BregmanDistance(Functional):
         if point not in functional.domain:
             raise ValueError('`point` {} is not in `functional.domain` {}'
                              ''.format(point, functional.domain))
-        self.__point = point
+        self.__point = point.copy()
 
         if subgrad not in functional.domain:
             raise TypeError(
                 '`subgrad` must be an element in `functional.domain`, got '
                 '{}'.format(subgrad))
-        self.__subgrad = subgrad
+        self.__subgrad = subgrad.copy()
 
         self.__constant = -functional(point) + subgrad.inner(point)
 
